@@ -16,10 +16,10 @@ Qed.
      entry of b is a rebuilt one (annotation-set containers) or related to an entry of a, and every
      entry of a that is carried over has a related entry in b with a related value;
    - no object is the copy of two sources. *)
-Theorem deepcopy_bisimulation_l : forall h seeds root fuel s' y,
+Theorem deepcopy_bisimulation_l : forall nf h seeds root fuel s' y,
   wf_heap h seeds = true -> wf_heap2 h = true -> memz root (owned_list h) = false ->
   0 <= root < hlen h -> (length h < fuel)%nat ->
-  run_seeded fuel h seeds root = Ok (s', R y) ->
+  run_seeded nf fuel h seeds root = Ok (s', R y) ->
   vrel (hlen h) (sc s') (R root) (R y)
   /\ (forall a b, In (a, b) (sc s') ->
         0 <= a < hlen h /\ hlen h <= b < hlen (sh s') /\
@@ -32,10 +32,10 @@ Theorem deepcopy_bisimulation_l : forall h seeds root fuel s' y,
                 exists k' v', In (k', v') (obody ob) /\ vrel (hlen h) (sc s') k k' /\ vrel (hlen h) (sc s') v v'))
   /\ (forall a a' b, In (a, b) (sc s') -> In (a', b) (sc s') -> a = a').
 Proof.
-  intros h seeds root fuel s' y WF WF2 NO Hr Hf E.
+  intros nf h seeds root fuel s' y WF WF2 NO Hr Hf E.
   destruct (wf_heap_parts _ _ WF) as [Hc [Hs [Hi [Hn Hk]]]].
   exact (run_bisim h seeds (closedb_spec h Hc) (ann_items_ok_spec h seeds Hi) (bound_names_ok_spec h Hn)
            (attr_keys_ok_spec h Hk) (wf2_listkeys h WF2) (wf2_noalias h WF2) (wf2_taxa h WF2) (wf2_bound h WF2)
            (wf2_ilist h WF2) (wf2_ilist2 h WF2) (wf2_nodup h WF2)
-           fuel root s' y Hs (init_inv h seeds WF) Hr (not_owned_of_list h root NO) Hf (U_init h seeds) E).
+           nf fuel root s' y Hs (init_inv h seeds nf WF) Hr (not_owned_of_list h root NO) Hf (U_init h seeds nf) E).
 Qed.
